@@ -19,6 +19,6 @@ for pid in sys.argv[1:]:
     text = tmpl.replace("__WT__", wt).replace("__PROPERTY__", json.dumps(props[pid], indent=1))
     if tried:
         text = text.replace("YOUR TASK", "ALREADY TRIED by earlier reviewers (do NOT repeat these or close variants of them; use different functions / mechanisms / files where you can):\n" + "\n".join(tried) + "\n\n\nYOUR TASK", 1)
-    text += "\n\nOne more request: if, while exploring, you notice that the UNMODIFIED code already violates the property for some concrete input, do not use that as your seeded change, but describe it (input, configuration, observed vs expected) in __WT__/seed_out/HEAD_OBSERVATIONS.txt and mention it in your final answer.\n".replace("__WT__", wt)
+    text += "\n\nOne more request: if, while exploring, you notice that the UNMODIFIED code already violates the property for some concrete input, do not use that as your seeded change, but describe it (input, configuration, observed vs expected) in __WT__/seed_out/HEAD_OBSERVATIONS.txt and mention it in your final answer. Earlier reviewers' observations of this kind were the most useful thing they produced (they have been repaired since), so spend a real part of your effort - roughly a third - on it: a differential run of the UNMODIFIED code against an independent reference you write yourself (exact rational / big-integer arithmetic, a reference grammar, std's parser or formatter), concentrating on configurations the default test suite does not compile (cargo features radix, power-of-two, format, compact; custom formats and options; debug-assertion builds) and on corners of the property's quantifier that look least exercised. Report only what you actually observed by running code, with the exact input, configuration, observed and expected result.\n".replace("__WT__", wt)
     open("/tmp/seed/%s.prompt.txt" % pid, "w").write(text)
     print(pid, len(tried), "tried")
